@@ -13,10 +13,12 @@ classes, in message order with multiplicity (Lemmas/Others.lean). The compact-na
 arbitrary: no fact about it is needed (class disjointness is never used, because a replaced value
 either belongs to an owned class or prints like the value it replaces).
 
-The one hypothesis is `RoundTrips`: the proxy decodes From / To / CSeq in place and prints the
-DECODED value, so those three fields are unchanged exactly when decode-then-encode gives back the
-string that was received (restricted to the strings occurring in the message; the codec side of
-that is C14's subject). Via / Route values are owned and need no such hypothesis.
+No hypothesis on the message: the proxy decodes From / To / CSeq in place and prints the DECODED
+value, and since those three value types keep the text they were decoded from and print it
+(`Lemmas.Literal`: `parseFromTo_encode`, `parseCSeq_encode`), decode-then-encode gives back the
+received string for EVERY text (`Lemmas.roundTrips_all`). Before the repairs recorded as D6 / D25 in
+DESIGN.md this was a genuine restriction (`RoundTrips`), with counterexamples `007 INVITE` and
+`<sip:a@b> ;tag=1`. Via / Route values are owned and never needed it.
 -/
 import Lemmas.RelayRel
 import Lemmas.RelaySample
@@ -41,21 +43,20 @@ theorem C01_insertSelf (cfg : Cfg) (m : Message) (t : Listener) (branch : Bytes)
 
 /-- Route learning (decodes every Via), received/rport stamping, remembering the inbound
 connection (decodes CSeq and Via) and consuming the own top Route entry change nothing else. -/
-theorem C01_handleRawMessage (cfg : Cfg) (st : St) (ev : RawEv) (hr : RoundTrips cfg.cm ev.msg.headers) :
+theorem C01_handleRawMessage (cfg : Cfg) (st : St) (ev : RawEv) :
     Untouched cfg.cm ev.msg (handleRawMessage cfg st ev).2 :=
-  untouched_of_rel (handleRawMessage_rel cfg st ev hr)
+  untouched_of_rel (handleRawMessage_rel cfg st ev (roundTrips_all _ _))
 
 /-- Dialog bookkeeping on responses (decodes CSeq, Via, From, To) changes nothing else. -/
-theorem C01_handleDialog (cfg : Cfg) (st : St) (peerAddr : Bytes) (peerPort : Int) (m : Message)
-    (hr : RoundTrips cfg.cm m.headers) :
+theorem C01_handleDialog (cfg : Cfg) (st : St) (peerAddr : Bytes) (peerPort : Int) (m : Message) :
     Untouched cfg.cm m (handleDialog cfg st peerAddr peerPort m).2 :=
-  untouched_of_rel (handleDialog_rel cfg st peerAddr peerPort m hr)
+  untouched_of_rel (handleDialog_rel cfg st peerAddr peerPort m (roundTrips_all _ _))
 
 /-- Choosing the next hop (decodes and pops Route; decodes To for the static route) changes nothing
 else. -/
-theorem C01_getNextRequestHop (cfg : Cfg) (m : Message) (hr : RoundTrips cfg.cm m.headers) :
+theorem C01_getNextRequestHop (cfg : Cfg) (m : Message) :
     Untouched cfg.cm m (getNextRequestHop cfg m).2 :=
-  untouched_of_rel (getNextRequestHop_rel cfg m hr)
+  untouched_of_rel (getNextRequestHop_rel cfg m (roundTrips_all _ _))
 
 /-- The Route part alone needs no hypothesis. -/
 theorem C01_getNextRequestHopByRoute (cfg : Cfg) (m : Message) :
@@ -72,17 +73,17 @@ theorem C01_responseHop (cfg : Cfg) (m : Message) :
 /-- EVERY output of one step of the proxy — request or response, towards a Route hop, a static
 route, a backend (pinned or rotated) or back along the Via chain — carries the printed form of a
 message with the start line, the body and the not-owned headers of the message received. -/
-theorem C01_step (cfg : Cfg) (st : St) (ev : RawEv) (hr : RoundTrips cfg.cm ev.msg.headers) :
+theorem C01_step (cfg : Cfg) (st : St) (ev : RawEv) :
     ∀ o ∈ (step cfg st ev).2, ∃ m', outData o = m'.bytes cfg.cm ∧ Untouched cfg.cm ev.msg m' := by
   intro o ho
-  obtain ⟨m', h1, h2⟩ := step_carries cfg st ev hr o ho
+  obtain ⟨m', h1, h2⟩ := step_carries cfg st ev (roundTrips_all _ _) o ho
   exact ⟨m', h2, untouched_of_rel h1⟩
 
 /-- the same for `HandleMessage` alone (any message, e.g. the one the earlier stages produced) -/
-theorem C01_handleMessage (cfg : Cfg) (st : St) (ev : RawEv) (m : Message) (hr : RoundTrips cfg.cm m.headers) :
+theorem C01_handleMessage (cfg : Cfg) (st : St) (ev : RawEv) (m : Message) :
     ∀ o ∈ (handleMessage cfg st ev m).2, ∃ m', outData o = m'.bytes cfg.cm ∧ Untouched cfg.cm m m' := by
   intro o ho
-  obtain ⟨m', h1, h2⟩ := handleMessage_carries cfg st ev m hr o ho
+  obtain ⟨m', h1, h2⟩ := handleMessage_carries cfg st ev m (roundTrips_all _ _) o ho
   exact ⟨m', h2, untouched_of_rel h1⟩
 
 /-! ### exactly one Content-Length, equal to the number of body bytes -/
@@ -144,7 +145,7 @@ theorem C01_printed_others (cm : List (Bytes × Bytes)) (hs : List Header) :
 
 /-- The bytes on the wire, start to end: everything except the owned header lines is determined by
 the message RECEIVED. -/
-theorem C01_wire (cfg : Cfg) (st : St) (ev : RawEv) (hr : RoundTrips cfg.cm ev.msg.headers) :
+theorem C01_wire (cfg : Cfg) (st : St) (ev : RawEv) :
     ∀ o ∈ (step cfg st ev).2, ∃ hs' : List Header,
       outData o =
         encodeFirstLine ev.msg.start
@@ -153,7 +154,7 @@ theorem C01_wire (cfg : Cfg) (st : St) (ev : RawEv) (hr : RoundTrips cfg.cm ev.m
       (hs'.filter (fun h => !owned cfg.cm h.name && !isCL cfg.cm h.name)).map headerLine =
         (ev.msg.headers.filter (fun h => !owned cfg.cm h.name && !isCL cfg.cm h.name)).map headerLine := by
   intro o ho
-  obtain ⟨m', hd, hs, hb, hothers⟩ := C01_step cfg st ev hr o ho
+  obtain ⟨m', hd, hs, hb, hothers⟩ := C01_step cfg st ev o ho
   refine ⟨m'.headers, ?_, ?_⟩
   · rw [hd, C01_one_content_length, hs, hb]
   · rw [C01_printed_others, C01_printed_others, hothers]
@@ -161,10 +162,6 @@ theorem C01_wire (cfg : Cfg) (st : St) (ev : RawEv) (hr : RoundTrips cfg.cm ev.m
 /-! ### non-vacuity on the sample configuration -/
 
 open Lemmas.Sample in
-/-- the sample messages satisfy `RoundTrips` (compact `f`, full `To`, `CSeq`) -/
-example : RoundTrips cfg.cm invite.headers ∧ RoundTrips cfg.cm bye.headers ∧ RoundTrips cfg.cm routed.headers ∧
-    RoundTrips cfg.cm resp.headers := by
-  refine ⟨?_, ?_, ?_, ?_⟩ <;> exact roundTrips_of_check _ _ (by decide +kernel)
 open Lemmas.Sample in
 /-- they do produce an output (backend, Route hop, Via chain), and `others` is far from empty:
 for `invite` it lists Max-Forwards, X-Foo, f, To, Call-ID, CSeq, X-Foo, Content-Length -/
@@ -174,11 +171,12 @@ example : (step cfg st (ev invite)).2.length = 1 ∧ (step cfg st (ev routed)).2
       [str "Max-Forwards", str "X-Foo", str "f", str "To", str "Call-ID", str "CSeq", str "X-Foo",
        str "Content-Length"] := by decide +kernel
 open Lemmas.Sample in
-/-- `RoundTrips` is a real restriction: a blank before the From parameters does not survive
-decode-then-encode, and then `others` does change (so the hypothesis cannot be dropped). -/
+/-- a blank before the From parameters, a tab inside CSeq: decoded in place (dialog bookkeeping), and the
+not-owned headers still print as received -/
 example :
     let m : Message := { invite with headers := [raw "From" "<sip:alice@a.example> ;tag=1", raw "To" "<sip:b@c>;tag=2",
-                                                 raw "Call-ID" "x"] }
-    others cfg.cm (getDialog cfg.cm m).2.headers ≠ others cfg.cm m.headers := by decide +kernel
+                                                 raw "Call-ID" "x", raw "CSeq" "007\tINVITE"] }
+    (getDialog cfg.cm m).2.headers ≠ m.headers ∧
+    others cfg.cm (getDialog cfg.cm m).2.headers = others cfg.cm m.headers := by decide +kernel
 
 end Props.C01
